@@ -1079,6 +1079,9 @@ var evalCorpus = []string{
 	"let $left = 1; T | join kind=inner (U) on not($left == $right.k) | count", "let $right = 1; T | join kind=inner (U) on not($left.k == $right) | count",
 	"T | summarize by k | join kind=inner (U) on k | join (V) on k", "T | count | extend k = 1 | join kind=leftouter (U) on k | join (V) on k",
 	"T | summarize n1 = count() by k | where n1 > 0 | join kind=inner (U | project k, n2 = b) on k | join kind=innerunique (V | project k, n3 = c) on k",
+	"T | join kind=inner (U) on k | sort by a | take 2 | where b > 0", "T | join kind=leftouter (U) on k | top 2 by a desc | where a > 1",
+	"T | join kind=inner (U) on k | top 3 by b | where k > 1 | count", "T | join (U) on k | sort by a desc, b | take 1 | where a < 2",
+	"T | join kind=inner (U) on k | sort by a | take 2 | extend n1 = a + 1 | where n1 > 2", "T | join kind=inner (U) on k | top 2 by a | project a | sort by a desc",
 	"T | sort by a desc | where k > 0 | take 2 | summarize n1 = sum(a)", "T | sort by a | extend n1 = a * 2 | take 2 | summarize n2 = min(a), n3 = max(n1) by k",
 }
 
@@ -1088,7 +1091,7 @@ func genJoinChain() string {
 	pre := []string{"", "", "summarize by k", "summarize n1 = count() by k", "count | extend k = 1", "where a > 0", "project k, a", "sort by a", "take 3",
 		"summarize by k | where k > 0", "summarize n1 = max(a) by k | sort by n1 | take 2", "extend n1 = a + 1"}
 	mid := []string{"", "", "", "where k > 0", "sort by k", "take 3", "extend n4 = 1", "as x7"}
-	post := []string{"", "", "count", "summarize n5 = count() by k", "sort by k asc | take 2", "project k"}
+	post := []string{"", "", "count", "summarize n5 = count() by k", "sort by k asc | take 2", "project k", "sort by k asc | take 2 | where k > 1", "top 1 by k | where k < 2 | count"}
 	kinds := []string{"", "", "kind=inner ", "kind=innerunique ", "kind=leftouter "}
 	right1 := []string{"U", "U", "U | project k, n2 = b", "U | where b > 0 | project k", "U | project k"}
 	right2 := []string{"V", "V | project k, n3 = c", "V | summarize by k", "V | project k"}
